@@ -9,6 +9,7 @@ import JumanjiModel.Env.Tetris.MaskLemmas
 import JumanjiModel.Env.Tetris.DropLemmas
 import JumanjiModel.Env.Tetris.ClearLemmas
 import JumanjiModel.Env.Tetris.StepLemmas
+import JumanjiModel.Env.Tetris.Bounds
 open Jm Tetris
 
 namespace Props.C04
@@ -147,3 +148,20 @@ theorem tetris_obs_faithful (cfg : Cfg) (s : State) (rot x : Int) (d : Nat) (hd 
 theorem tetris_reset_obs_faithful (cfg : Cfg) (d : Nat) (hd : validDraw d) :
     (reset cfg d).2.obs = observe cfg (reset cfg d).1 := Tetris.reset_obs_faithful cfg d hd
 end Props.C12
+
+namespace Props.C01
+open PzB
+/-- the observation returned by `reset` (any sizes, any first piece index — the gather clamps): every leaf listed in
+`obsBounds cfg` is present and all its values lie in the listed interval: `grid`, `tetromino` ∈ [0,1],
+`action_mask` ∈ [0,1], `step_count` ∈ [0, time_limit].  No hypothesis. -/
+theorem tetris_reset_obs_in_bounds (cfg : Cfg) (d : Nat) :
+    ObsInBounds (obsBounds cfg) (obsLeaves (reset cfg d).2.obs) := Tetris.reset_obs_in_bounds cfg d
+
+/-- the same for `step`, for every state, action (any integers) and draw, including the terminal step.  Only hypothesis:
+the episode has not ended by the time limit before this step (`step_count < time_limit`, which `Consistent` and
+"not LAST yet" give); then the emitted `step_count = s.step_count + 1 ≤ time_limit`. -/
+theorem tetris_step_obs_in_bounds (cfg : Cfg) (s : State) (rot x : Int) (d : Nat)
+    (hlim : s.stepCount < cfg.timeLimit) :
+    ObsInBounds (obsBounds cfg) (obsLeaves (step cfg s rot x d).2.obs) :=
+  Tetris.step_obs_in_bounds cfg s rot x d hlim
+end Props.C01
